@@ -13,10 +13,7 @@ package main
 
 import (
 	"fmt"
-	"sync"
 
-	"github.com/NethermindEth/juno/core"
-	"verifharness/hx"
 	sh "verifharness/statehist"
 )
 
